@@ -189,10 +189,11 @@ def obligations(tier, seed):
         reach["any"].append(z3.And(p.cond(), has_colon, star))
         reach["default"].append(z3.And(p.cond(), has_colon, z3.Not(star), is_default_num))
         reach["fixed"].append(z3.And(p.cond(), has_colon, z3.Not(star), z3.Not(is_default_num)))
-    if bad or not all(reach.values()):
+    reach_l = R.live_reach(viol, reach, bad)
+    if bad or not all(reach_l):
         out.append(R.Result(engine="mirsym", name="kernel:port-normalisation", kind="kernel", status="unsupported" if bad else "vacuous", detail=str([x.detail for x in bad[:1]])[:300], bodies=[b.name]))
     else:
-        out.append(R.decide("kernel:port-normalisation", "kernel", z3.Or(*viol), [z3.Or(*v) for v in reach.values()], bodies=[b.name],
+        out.append(R.decide("kernel:port-normalisation", "kernel", z3.Or(*viol), [z3.Or(*v) for v in reach_l], bodies=[b.name],
                             desc="authority port: no ':' -> Default; ':*' -> Any; ':<n>' with n the scheme's default port -> Default; otherwise Fixed(n)",
                             bounds="all u16 port numbers x scheme default in {none, any u16}; URI parsing itself uninterpreted (http crate)", keydetail="port-normalisation",
                             extra={"models": ["str::split_once(':'), str::parse::<u16>, Uri parsing: uninterpreted outcomes (symbolic)", "default_port: symbolic table value (checked separately)"]}))
@@ -277,10 +278,11 @@ def obligations(tier, seed):
         reach["both"].append(z3.And(p.cond(), both))
         reach["neither"].append(z3.And(p.cond(), neither))
         reach.setdefault("any", []).append(p.cond())
-    if bad or not all(reach.values()):
+    reach_l = R.live_reach(viol, reach, bad)
+    if bad or not all(reach_l):
         out.append(R.Result(engine="mirsym", name="kernel:from_http_request", kind="kernel", status="unsupported" if bad else "vacuous", detail=str([x.detail for x in bad[:1]])[:300], bodies=[b.name]))
     else:
-        out.append(R.decide("kernel:from_http_request:agreement", "kernel", z3.Or(*viol), [z3.Or(*v) for v in reach.values()], bodies=[b.name],
+        out.append(R.decide("kernel:from_http_request:agreement", "kernel", z3.Or(*viol), [z3.Or(*v) for v in reach_l], bodies=[b.name],
                             desc="Host header and URI authority both parse: admitted for matching iff they are equal (else no single authority -> 400); neither parses: none; "
                                  "the result is always one of the parsed authorities (mixed cells - one parses, one does not - are not asserted)",
                             bounds="presence and parse outcome of both sources and their equality: all combinations", keydetail="authority-agreement"))
